@@ -41,12 +41,12 @@ def gen_cases(tier, seed):
         cases.append({"kind": "1d", "cfg": {"degree": p, "ncells": p, "periodic": True, "kind": "random", "fast": False, "uniform_flag": False, "seed": 40 + p}, "seed": 40 + p})
         cases.append({"kind": "1d", "cfg": {"degree": p, "ncells": p, "periodic": True, "kind": "uniform", "fast": p == 3, "uniform_flag": True, "seed": 50 + p}, "seed": 50 + p})
         cases.append({"kind": "1d", "cfg": {"degree": p, "ncells": 1, "periodic": False, "kind": "uniform", "fast": False, "uniform_flag": False, "seed": 20 + p}, "seed": 20 + p})
-    for k in range(260 if tier == "quick" else 10000):
+    for k in range(260 if tier == "quick" else 40000):
         cfg = splgen.random_cfg(rng, max_degree=5)
         if cfg["fast"] and not cfg["periodic"] and rng.random() < 0.3:
             cfg["ncells"] = rng.choice([1, 2, 3])
         cases.append({"kind": "1d", "cfg": cfg, "seed": rng.randrange(1 << 30), "cost": cfg["ncells"]})
-    for k in range(60 if tier == "quick" else 2000):
+    for k in range(60 if tier == "quick" else 8000):
         fast = rng.random() < 0.35
         c1 = splgen.random_cfg(rng, max_degree=5, max_cells=12, allow_fast=False)
         c2 = splgen.random_cfg(rng, max_degree=5, max_cells=12, allow_fast=False)
